@@ -728,6 +728,37 @@ func c06(c *core.Ctx) {
 
 			return
 		}
+		// the same read through receivers that are not fresh: made with spare capacity and a shorter length, or
+		// carried over reads of a longer and then a shorter list (the value read is the list in the message, whatever
+		// the receiver held before)
+		if n <= 64 {
+			made := make(stun.UnknownAttributes, r.Intn(n+1), n+r.Intn(9))
+			for k := range made {
+				made[k] = stun.AttrType(0x7700 + k)
+			}
+			carried := stun.UnknownAttributes(nil)
+			history := []int{n + 1 + r.Intn(8), r.Intn(n + 1)}
+			for _, hn := range history {
+				hv := make([]uint16, hn)
+				for k := range hv {
+					hv[k] = uint16(0x6600 + k)
+				}
+				hm := new(stun.Message)
+				_ = stun.Decode(ref.Encode(0x0111, [12]byte{5}, []ref.Attr{{Type: 0x000A, Value: ref.EncUnknown(hv)}}), hm)
+				_ = carried.GetFrom(hm)
+			}
+			c.Count("unknown_attribute_lists_read_into_used_receivers", 2)
+			for ri, rcv := range []*stun.UnknownAttributes{&made, &carried} {
+				name := []string{"made-with-spare-capacity", "carried-over-longer-then-shorter"}[ri]
+				before := fmt.Sprintf("len %d cap %d", len(*rcv), cap(*rcv))
+				if gerr := rcv.GetFrom(dec); gerr != nil || !sameTypes(*rcv, types) {
+					detail["receiver"], detail["receiver_before"], detail["read"], detail["history"] = name, before, fmt.Sprint(*rcv), fmt.Sprint(history)
+					c.Violate("roundtrip", "roundtrip:UNKNOWN-ATTRIBUTES:used-receiver", detail)
+
+					return
+				}
+			}
+		}
 		if !bytes.Equal(got, want) {
 			detail["lib_hex"], detail["rfc_hex"] = core.Hex(got), core.Hex(want)
 			c.Violate("wire-format", "wire-format:UNKNOWN-ATTRIBUTES", detail)
